@@ -1,7 +1,7 @@
 (* C01: the circuit-program DSL (harness/src/dsl.rs) and its direct evaluation over the field.
    [eval_prog] returns the public outputs, or None if an assertion of the program fails. *)
 From Coq Require Import ZArith List Bool Lia.
-From Verif Require Import Base.Field Base.Reader Model.Fp Model.FieldGeneric Model.PoseidonSpec.
+From Verif Require Import Base.Field Base.Reader Model.Fp Model.Fp2 Model.FieldGeneric Model.PoseidonSpec.
 Import ListNotations.
 Open Scope Z_scope.
 
@@ -11,7 +11,11 @@ Inductive op : Type :=
 | OSplitLe (a n : nat) | OLeSum (bits : list nat) | ORangeCheck (a n : nat)
 | OSelect (b x y : nat) | ORandomAccess (i : nat) (v : list nat) | OIsEqual (a b : nat)
 | OHash (v : list nat) | OLookup (t a : nat) | OAssertEq (a b : nat) | OPublic (a : nat)
-| OAssertBool (a : nat) | ONot (a : nat) | OAnd (a b : nat) | OInverse (a : nat).
+| OAssertBool (a : nat) | ONot (a : nat) | OAnd (a b : nat) | OInverse (a : nat)
+(* family 5: further gadgets *)
+| OArith (c0 c1 : Z) (a b c : nat) | OExpBits (a : nat) (bits : list nat) | OMulMany (v : list nat) | OAddMany (v : list nat)
+| OExtMul (a0 a1 b0 b1 : nat) | OExtDiv (a0 a1 b0 b1 : nat) | OExtArith (c0 c1 : Z) (a0 a1 b0 b1 d0 d1 : nat)
+| OSquare (a : nat) | OCube (a : nat) | OExpPow2 (a k : nat) | OSplitBase4 (a n : nat) | OExp (a e nb : nat).
 
 Record program := { tables : list (list (Z * Z)); inputs : list Z; ops : list op }.
 
@@ -41,6 +45,19 @@ Definition rd_op : R op :=
   | 21 => rdo a <- rd_nat ;; rret (ONot a)
   | 22 => rdo a <- rd_nat ;; rdo b <- rd_nat ;; rret (OAnd a b)
   | 23 => rdo a <- rd_nat ;; rret (OInverse a)
+  | 24 => rdo c0 <- rd_z ;; rdo c1 <- rd_z ;; rdo a <- rd_nat ;; rdo b <- rd_nat ;; rdo c <- rd_nat ;; rret (OArith c0 c1 a b c)
+  | 25 => rdo a <- rd_nat ;; rdo v <- rd_list rd_nat ;; rret (OExpBits a v)
+  | 26 => rdo v <- rd_list rd_nat ;; rret (OMulMany v)
+  | 27 => rdo v <- rd_list rd_nat ;; rret (OAddMany v)
+  | 28 => rdo a0 <- rd_nat ;; rdo a1 <- rd_nat ;; rdo b0 <- rd_nat ;; rdo b1 <- rd_nat ;; rret (OExtMul a0 a1 b0 b1)
+  | 29 => rdo a0 <- rd_nat ;; rdo a1 <- rd_nat ;; rdo b0 <- rd_nat ;; rdo b1 <- rd_nat ;; rret (OExtDiv a0 a1 b0 b1)
+  | 30 => rdo c0 <- rd_z ;; rdo c1 <- rd_z ;; rdo a0 <- rd_nat ;; rdo a1 <- rd_nat ;; rdo b0 <- rd_nat ;; rdo b1 <- rd_nat ;;
+          rdo d0 <- rd_nat ;; rdo d1 <- rd_nat ;; rret (OExtArith c0 c1 a0 a1 b0 b1 d0 d1)
+  | 31 => rdo a <- rd_nat ;; rret (OSquare a)
+  | 32 => rdo a <- rd_nat ;; rret (OCube a)
+  | 33 => rdo a <- rd_nat ;; rdo k <- rd_nat ;; rret (OExpPow2 a k)
+  | 36 => rdo a <- rd_nat ;; rdo n <- rd_nat ;; rret (OSplitBase4 a n)
+  | 37 => rdo a <- rd_nat ;; rdo e <- rd_nat ;; rdo nb <- rd_nat ;; rret (OExp a e nb)
   | _ => rfail
   end.
 
@@ -75,6 +92,21 @@ Fixpoint le_sum (bits : list Fp) (w : Fp) : Fp :=
 
 Definition lookup_table (t : list (Z * Z)) (x : Fp) : option Fp :=
   match find (fun p => (fst p =? fval x)%Z) t with Some p => Some (toFp (snd p)) | None => None end.
+
+(* base-4 digits, little endian *)
+Definition digits4_le (x : Z) (n : nat) : list Fp :=
+  map (fun i => toFp (Z.land (Z.shiftr x (2 * Z.of_nat i)) 3)) (seq 0 n).
+Definition fits4 (x : Fp) (n : nat) : bool := (fval x <? 4 ^ Z.of_nat n)%Z.
+
+(* base^(sum_i bits_i 2^i), bits little endian: square-and-multiply from the top bit *)
+Fixpoint exp_bits (base : Fp) (bits : list Fp) : Fp :=
+  match bits with
+  | [] => 1
+  | b :: t => let r := exp_bits base t in (r * r) * (if (fval b =? 1)%Z then base else 1)
+  end.
+
+Definition ext_of (x0 x1 : Fp) : Fp2 := (x0, x1).
+Definition ext_const (c : Z) : Fp2 := (toFp c, 0).
 
 Definition obind {A B} (o : option A) (k : A -> option B) : option B :=
   match o with Some a => k a | None => None end.
@@ -117,6 +149,28 @@ Definition step (tabs : list (list (Z * Z))) (s : st) (o : op) : option st :=
   | OAnd a b => odo x <- getv s a ;; odo y <- getv s b ;;
                 if is_bool x && is_bool y then Some (pushv s (x * y)) else None
   | OInverse a => odo x <- getv s a ;; if (fval x =? 0)%Z then None else Some (pushv s (finv x))
+  | OArith c0 c1 a b c => odo x <- getv s a ;; odo y <- getv s b ;; odo z <- getv s c ;;
+                          Some (pushv s (toFp c0 * x * y + toFp c1 * z))
+  | OExpBits a bits => odo x <- getv s a ;; odo bs <- getvs s bits ;;
+                       if forallb is_bool bs then Some (pushv s (exp_bits x bs)) else None
+  | OMulMany v => odo vs <- getvs s v ;; Some (pushv s (fold_left fmul vs 1))
+  | OAddMany v => odo vs <- getvs s v ;; Some (pushv s (fold_left fadd vs 0))
+  | OExtMul a0 a1 b0 b1 => odo x0 <- getv s a0 ;; odo x1 <- getv s a1 ;; odo y0 <- getv s b0 ;; odo y1 <- getv s b1 ;;
+                           let r := (ext_of x0 x1 * ext_of y0 y1) in Some (pushvs s [fst r; snd r])
+  | OExtDiv a0 a1 b0 b1 => odo x0 <- getv s a0 ;; odo x1 <- getv s a1 ;; odo y0 <- getv s b0 ;; odo y1 <- getv s b1 ;;
+                           if ((fval y0 =? 0)%Z && (fval y1 =? 0)%Z) then None
+                           else let r := (ext_of x0 x1 * finv (ext_of y0 y1)) in Some (pushvs s [fst r; snd r])
+  | OExtArith c0 c1 a0 a1 b0 b1 d0 d1 =>
+      odo x0 <- getv s a0 ;; odo x1 <- getv s a1 ;; odo y0 <- getv s b0 ;; odo y1 <- getv s b1 ;;
+      odo z0 <- getv s d0 ;; odo z1 <- getv s d1 ;;
+      let r := (ext_const c0 * ext_of x0 x1 * ext_of y0 y1 + ext_const c1 * ext_of z0 z1) in Some (pushvs s [fst r; snd r])
+  | OSquare a => odo x <- getv s a ;; Some (pushv s (x * x))
+  | OCube a => odo x <- getv s a ;; Some (pushv s (x * x * x))
+  | OExpPow2 a k => odo x <- getv s a ;; Some (pushv s (exp_power_of_2 x k))
+  | OSplitBase4 a n => odo x <- getv s a ;;
+                       if fits4 x n then Some (pushvs s (digits4_le (fval x) n)) else None
+  | OExp a e nb => odo x <- getv s a ;; odo ev <- getv s e ;;
+                   if fits ev nb then Some (pushv s (exp_u64 x (Z.to_N (fval ev)))) else None
   end.
 
 Fixpoint run_ops (tabs : list (list (Z * Z))) (s : st) (os : list op) : option st :=
